@@ -261,11 +261,16 @@ impl Service {
             .map(|instance| instance.get_short_key())
             .collect();
         //log::info!("do_refresh_process_range instance size:{}", keys.len());
+        // the time-out clock of a taken-over instance starts at the take-over: the mirror was last
+        // refreshed by the previous owner, its age says nothing about the client's heartbeats
+        // (a failed owner is only detected after the node time-out, close to the health time-out)
+        let now = crate::now_millis_i64();
         for key in keys {
             if let Some(old) = self.instances.get(&key) {
                 // 接管实例: 归本节点负责后才会参与过期检查(is_enable_timeout)
                 let mut instance = old.as_ref().clone();
                 instance.from_cluster = 0;
+                instance.last_modified_millis = now;
                 let last_modified_millis = instance.last_modified_millis as u64;
                 self.instances.insert(key.clone(), Arc::new(instance));
                 self.healthy_timeout_set.add(last_modified_millis, key);
